@@ -1,1 +1,72 @@
 use super::*;
+use crate::verif_common::*;
+
+//@ name: c01_async_server_framing_echo
+//@ prop: C01
+//@ tier: quick
+//@ clause: the async server's response framing (borrowed query echo) emits the header with length = 48 + |query| + |body| and query_length patched, then the echoed query (the handler's own if it set one), then the body - the same frame the blocking and WebSocket routes produce for that response
+//@ funcs: async_server::write_view_response; message::response_echo_query; Header::encode
+//@ symbolic: response header (all fields except magic/lengths), response body bytes, request query bytes, whether the handler set its own query and its byte
+//@ bounds: |request query|=2, handler query empty (per-instance), |body|=3; writer = tokio's in-memory AsyncWrite for Vec<u8>; unwind 60
+//@ oracle: independent REPE v1 layout table on the patched header || echoed query || body
+fn async_server_framing<const OWN_Q: bool>() {
+    let mut h = any_header();
+    h.spec = crate::constants::REPE_SPEC;
+    let own_q: bool = OWN_Q;
+    let own: [u8; 1] = kani::any();
+    let b: [u8; 3] = kani::any();
+    let rq: [u8; 2] = kani::any();
+    let ownv: Vec<u8> = if own_q { own.to_vec() } else { Vec::new() };
+    h.query_length = ownv.len() as u64;
+    h.body_length = 3;
+    h.length = 48 + h.query_length + 3;
+    let resp = Message { header: h, query: ownv, body: b.to_vec() };
+    let echo = crate::message::response_echo_query(&resp, &rq);
+    let elen = echo.len();
+    assert!(elen == if own_q { 1 } else { 2 });
+    let mut out: Vec<u8> = Vec::with_capacity(64);
+    let r2 = block_on_ready(write_view_response(&mut out, &resp, echo));
+    assert!(r2.is_ok());
+    std::mem::forget(r2);
+    let mut want = h;
+    want.query_length = elen as u64;
+    want.length = (48 + elen + 3) as u64;
+    let hb = spec_header_bytes(&want);
+    assert!(out.len() == 48 + elen + 3, "async server framed a different number of bytes");
+    let mut i = 0;
+    while i < 48 {
+        assert!(out[i] == hb[i], "async server: header (length fields) differs from 48+query+body framing");
+        i += 1;
+    }
+    if own_q {
+        assert!(out[48] == own[0], "handler-set query not preserved");
+    } else {
+        assert!(out[48] == rq[0] && out[49] == rq[1], "request query not echoed");
+    }
+    let mut k = 0;
+    while k < 3 {
+        assert!(out[48 + elen + k] == b[k]);
+        k += 1;
+    }
+    std::mem::forget(out);
+    std::mem::forget(resp);
+}
+
+#[kani::proof]
+#[kani::unwind(60)]
+fn c01_async_server_framing_echo() {
+    async_server_framing::<false>();
+}
+
+//@ prop: C01
+//@ tier: quick
+//@ clause: as c01_async_server_framing_echo when the handler set its own response query: it is preserved and the header length fields are recomputed from it (not added on top)
+//@ funcs: async_server::write_view_response; message::response_echo_query; Header::encode
+//@ symbolic: as c01_async_server_framing_echo plus the handler-set query byte
+//@ bounds: |request query|=2, |handler query|=1, |body|=3; unwind 60
+//@ oracle: independent REPE v1 layout table on the patched header || handler query || body
+#[kani::proof]
+#[kani::unwind(60)]
+fn c01_async_server_framing_own_query() {
+    async_server_framing::<true>();
+}
